@@ -371,9 +371,13 @@ def build_replay(inst, tmp, input_h, extra_defs, tag):
     srcs = [os.path.join(HARNESS, inst.harness)] + \
         [os.path.join(REPO, u) for u in units]
     cflags = [f for f in inst.cflags if f != "-D__NO_CTYPE"]
+    # -ftrivial-auto-var-init=pattern: an object the code under test forgot to
+    # initialise is "any value" for cbmc; on the real build it would be whatever
+    # the stack held. A repeating 0xFE pattern makes such counterexamples
+    # reproducible instead of depending on stack garbage.
     cmd = ["gcc", "-O0", "-g", "-fsanitize=address,undefined",
            "-fno-sanitize-recover=undefined", "-fno-omit-frame-pointer",
-           "-w"] + BASE_DEFS + include_flags() + cflags + inst.replay_cflags + \
+           "-ftrivial-auto-var-init=pattern", "-w"] + BASE_DEFS + include_flags() + cflags + inst.replay_cflags + \
         def_flags(inst.defines) + extra_defs + \
         ["-DVP_REPLAY", '-DVP_INPUT_FILE="%s"' % input_h, "-o", exe] + srcs + \
         ["-lm"]
